@@ -18,13 +18,16 @@ Two ties between the theorems of `PyribsProofs/C09.lean` and the current source:
             iteration (pycma excluded; a few cases resume in a fresh process)
                                               -> bit-identical continuation;
       (iii) one seed changed -- for a spawned child seed: only the last child index, i.e.
-            the sibling of the same parent    -> the outputs differ (observed).
+            the sibling of the same parent    -> the first batch that component emits differs;
+      (iv)  emitters given ONE shared es_kwargs dict object vs. separate equal dicts
+                                              -> bit-identical; the caller's dict is unchanged.
     Around every library call the states of `np.random` and `random` are compared
     before / after.
 
 Oracle failures are concrete failing inputs (a pipeline description); the site
 table is reported in the evidence (`rng_sites`).
 """
+import copy
 import hashlib
 import json
 import os
@@ -78,7 +81,9 @@ RULE = ("whole pipelines = archive kind (Grid, CVT x {kmeans, random, sobol, scr
         "GradientArborescence, GradientOperator, Gaussian, IsoLine, GeneticAlgorithm) x {Scheduler, "
         "BanditScheduler} x {int, root SeedSequence, spawned child / grandchild SeedSequence(x).spawn(n)[i]} seeds for "
         "every component (built anew per run), 2-8 iterations; each case is run 4 times (two global "
-        "states with different interleaved foreign draws, pickled at a random iteration, one seed changed); a "
+        "states with different interleaved foreign draws, pickled at a random iteration, one seed changed), and "
+        "pipelines whose emitters are configured through es_kwargs (None / one dict each / ONE dict object shared "
+        "by all emitters) a fifth time with separate equal dicts; a "
         "case is non-trivial when it has >= 2 iterations, the two runs' foreign draws differ, and every run "
         "completed without a rejection; counted once per distinct pipeline description")
 PARTIAL = [
@@ -153,16 +158,18 @@ def translate(ctx):
 class _SpyMixin:
     """Records the add feedback handed to the emitter (public EmitterBase.tell API)."""
 
-    def _c09_note(self, add_info):
+    def _c09_note(self, add_info, solution, how):
         self.__dict__.setdefault("_c09_log", []).append(
             {k: np.array(v, copy=True) for k, v in sorted(add_info.items())})
+        # the batches this emitter itself emitted (its own slice of ask() / ask_dqd(), as handed back to it)
+        self.__dict__.setdefault("_c09_sols", []).append((how, np.array(solution, copy=True)))
 
     def tell(self, solution, objective, measures, add_info, **fields):
-        self._c09_note(add_info)
+        self._c09_note(add_info, solution, "ask")
         return super().tell(solution, objective, measures, add_info, **fields)
 
     def tell_dqd(self, solution, objective, measures, jacobian, add_info, **fields):
-        self._c09_note(add_info)
+        self._c09_note(add_info, solution, "ask_dqd")
         return super().tell_dqd(solution, objective, measures, jacobian, add_info, **fields)
 
 
@@ -245,7 +252,58 @@ def ranker_arg(spec):
     return cls.__name__ if form == "full" else cls
 
 
-def make_emitter(spec, archive, seed, k, sibling=False):
+def build_es_kwargs(case, separate=False):
+    """The `es_kwargs` argument of every emitter: None, or a dict built from spec['eskw'] (JSON).
+
+    With case['eskw_shared'] (and not `separate`) emitters whose spec['eskw'] are equal receive ONE and the
+    same dict object, as a caller who writes `kw = {...}; [Emitter(..., es_kwargs=kw) for ...]` does; otherwise
+    every emitter gets its own equal dict.  Returns (list of arguments, list of (object, pristine copy, users))."""
+    args, owned, by_content = [], [], {}
+    share = bool(case.get("eskw_shared")) and not separate
+    for k, e in enumerate(case["emitters"]):
+        kw = e.get("eskw") if e["kind"] in ("es", "ga") else None
+        if kw is None:
+            args.append(None)
+            continue
+        key = json.dumps(kw, sort_keys=True)
+        if share and key in by_content:
+            obj, users = by_content[key]
+            users.append(k)
+        else:
+            obj, users = copy.deepcopy(kw), [k]
+            by_content[key] = (obj, users)
+            owned.append((obj, copy.deepcopy(kw), users))
+        args.append(obj)
+    return args, owned
+
+
+RANDOM_KEYS = {"seed", "randn", "rng", "random_state", "generator"}
+
+
+def dict_changes(obj, pristine, prefix=""):
+    """Entries of a caller-owned (possibly nested) dict that differ from its pristine copy:
+    list of (path, carries random material)."""
+    out = []
+    for key in sorted(set(obj) | set(pristine), key=str):
+        path = f"{prefix}{key}"
+        if key not in pristine:
+            v = obj[key]
+            rnd = str(key) in RANDOM_KEYS or callable(v) or isinstance(
+                v, (np.random.Generator, np.random.SeedSequence, np.random.BitGenerator, np.random.RandomState))
+            out.append((path + " added", rnd))
+        elif key not in obj:
+            out.append((path + " removed", str(key) in RANDOM_KEYS))
+        elif isinstance(obj[key], dict) and isinstance(pristine[key], dict):
+            out += dict_changes(obj[key], pristine[key], path + ".")
+        else:
+            a, b = obj[key], pristine[key]
+            same = type(a) is type(b) and (a == b or (a != a and b != b))
+            if not same:
+                out.append((path + " changed", str(key) in RANDOM_KEYS))
+    return out
+
+
+def make_emitter(spec, archive, seed, k, sibling=False, es_kwargs=None):
     import ribs.emitters as E
     s = mkseed(seed, spec, sibling)
     x0 = np.full(D, 0.1 * (k + 1))
@@ -253,13 +311,14 @@ def make_emitter(spec, archive, seed, k, sibling=False):
     if kind == "es":
         return _spy(E.EvolutionStrategyEmitter)(
             archive, x0=x0, sigma0=0.5, ranker=ranker_arg(spec), es=spec["es"], selection_rule=spec.get("sel", "filter"),
-            restart_rule=spec.get("restart", "no_improvement"), batch_size=spec.get("batch", 4), seed=s)
+            restart_rule=spec.get("restart", "no_improvement"), batch_size=spec.get("batch", 4), seed=s,
+            es_kwargs=es_kwargs)
     if kind == "ga":
         return _spy(E.GradientArborescenceEmitter)(
             archive, x0=x0, sigma0=0.5, lr=0.1, ranker=ranker_arg(spec), es=spec["es"],
             grad_opt=spec.get("grad_opt", "adam"), normalize_grad=bool(spec.get("norm", True)),
             selection_rule=spec.get("sel", "filter"), restart_rule=spec.get("restart", "no_improvement"),
-            batch_size=spec.get("batch", 4), seed=s)
+            batch_size=spec.get("batch", 4), seed=s, es_kwargs=es_kwargs)
     if kind == "gop":
         # the iso_line_dd operator samples elites in ask_dqd and therefore needs initial_solutions, not x0
         start = ({"initial_solutions": np.array([x0, x0 + 0.5, x0 - 0.7])} if spec.get("op") == "iso_line_dd"
@@ -330,12 +389,24 @@ class Obs:
         self.disturbed = None
         self.error = None
         self.active = {}  # emitter index -> rows told
+        self.first_batch = {}  # emitter index -> digest of the first non-empty batch it emitted through ask()
+        self.kw_modified = None  # (when, [(entry, carries random material)]) for a caller-owned es_kwargs dict
 
     def put(self, label, x):
         self.items.append((label, digest(x), excerpt(x)))
 
     def guard(self, label):
         return _Guard(self, label)
+
+    def check_owned(self, owned, when):
+        """The caller's es_kwargs dicts must still be what the caller built."""
+        if self.kw_modified is not None:
+            return
+        for obj, pristine, users in owned:
+            ch = dict_changes(obj, pristine)
+            if ch:
+                self.kw_modified = (f"{when} (es_kwargs of emitter(s) {users})", ch)
+                return
 
 
 class _Guard:
@@ -385,7 +456,8 @@ def run_pipeline(case, variant, stop_at=None):
     """Runs the pipeline of `case` once.
 
     variant: 'a' | 'b' (global state + foreign draws of that name), 'p' (as 'a', pickled at case['ckpt']),
-    's' (as 'a', one seed changed), 'x' (as 'a', stop before iteration case['ckpt'] and return the pickle).
+    's' (as 'a', one seed changed), 'x' (as 'a', stop before iteration case['ckpt'] and return the pickle),
+    'd' (as 'a', but every emitter gets its own es_kwargs dict even when the case shares one object).
     """
     from ribs.schedulers import BanditScheduler, Scheduler
     _init_spies()
@@ -419,9 +491,14 @@ def run_pipeline(case, variant, stop_at=None):
                     result = make_archive({"kind": "grid"}, aseed + 1)
             foreign(case["ops"][0][which][:3] if case["ops"] else (0, 0, None))
             ems = []
+            kwargs, owned = build_es_kwargs(case, separate=variant == "d")
             for k, es in enumerate(case["emitters"]):
-                with obs.guard(f"emitter {k} constructor"):
-                    ems.append(make_emitter(es, archive, eseeds[k], k, sibling=sib == k + 1))
+                try:
+                    with obs.guard(f"emitter {k} constructor"):
+                        ems.append(make_emitter(es, archive, eseeds[k], k, sibling=sib == k + 1,
+                                                es_kwargs=kwargs[k]))
+                finally:
+                    obs.check_owned(owned, f"constructing emitter {k}")
             with obs.guard("scheduler constructor"):
                 if case["sched"] == "bandit":
                     sched = BanditScheduler(archive, ems, case.get("num_active", 1), result_archive=result,
@@ -466,6 +543,7 @@ def run_pipeline(case, variant, stop_at=None):
                 with obs.guard(f"tell[{it}]"):
                     sched.tell(obj, meas)
             finish(obs, sched)
+            obs.check_owned(owned, "running the pipeline")
     except Exception as e:  # pylint: disable=broad-except
         obs.error = f"{type(e).__name__}: {str(e)[:160]}"
         obs.items.append(("exception", ("exc", (), type(e).__name__), obs.error))
@@ -481,6 +559,9 @@ def finish(obs, sched):
                 obs.put(f"feedback[emitter {k}][tell {j}].{name}", arr)
             rows += max([len(arr) for arr in info.values()], default=0)
         obs.active[k] = rows
+        first = next((b for how, b in em.__dict__.get("_c09_sols", []) if how == "ask" and len(b)), None)
+        if first is not None:
+            obs.first_batch[k] = digest(first)
     with obs.guard("archive.data / stats / sample_elites"):
         observe_archive(obs, "archive", sched.archive)
         if sched.result_archive is not sched.archive:
@@ -574,7 +655,12 @@ def describe(case):
     ar = a["kind"] + (f"/{a['method']}" if a["kind"] == "cvt" else "") + sk(a)
     ems = ",".join(e["kind"] + (f"[{e['es']},{e['ranker']}{':' + e['rform'] if e.get('rform', 'abbr') != 'abbr' else ''}]" if e["kind"] in ("es", "ga") else "")
                    + (sk(e) if seed_kind(e) != "int" else "") for e in case["emitters"])
-    return f"{ar} seed={a['seed']} | {ems} | {case['sched']} | {len(case['ops'])} it"
+    kw = ""
+    if any(e.get("eskw") is not None for e in case["emitters"]):
+        kw = " | es_kwargs=" + ";".join(json.dumps(e["eskw"]) if e.get("eskw") is not None else "-"
+                                        for e in case["emitters"]) + \
+            (" (ONE shared dict object)" if shares_es_kwargs(case) else " (one dict per emitter)")
+    return f"{ar} seed={a['seed']} | {ems} | {case['sched']} | {len(case['ops'])} it{kw}"
 
 
 def has_pycma(case):
@@ -589,6 +675,15 @@ def run_case(case, ctx=None):
     oa, _, _ = run_pipeline(case, "a")
     if oa.disturbed is not None:
         return Failure("oracle", f"global random state disturbed by {oa.disturbed} (first run) :: {what}")
+    if oa.kw_modified is not None:
+        when, changes = oa.kw_modified
+        cnt("es_kwargs-modified")
+        if any(rnd for _, rnd in changes):
+            # the caller's dict now carries this emitter's seed / generator: every later component built from
+            # the same dict is seeded by it (and what an emitter draws depends on which one was built before it)
+            return Failure("oracle", f"the caller's es_kwargs dict was modified by {when}: "
+                                     f"{', '.join(c for c, _ in changes[:8])} -- it now carries random material of "
+                                     f"that emitter :: {what}")
     ob, _, _ = run_pipeline(case, "b")
     if ob.disturbed is not None:
         return Failure("oracle", f"global random state disturbed by {ob.disturbed} (second run) :: {what}")
@@ -601,6 +696,17 @@ def run_case(case, ctx=None):
         case["_rejected"] = True
         return None
     cnt("i:double-run-identical")
+    # (iv) one es_kwargs dict object shared by several emitters == separate equal dicts
+    if shares_es_kwargs(case):
+        od, _, _ = run_pipeline(case, "d")
+        if od.disturbed is not None:
+            return Failure("oracle", f"global random state disturbed by {od.disturbed} (separate-dicts run) :: {what}")
+        d = first_diff(oa, od)
+        if d is not None:
+            return Failure("oracle", "a pipeline whose emitters were given ONE shared es_kwargs dict behaves differently "
+                                     f"from the same pipeline built with separate equal dicts: {d} :: {what}",
+                           detail=d.values)
+        cnt("iv:shared-es_kwargs-identical")
     # (ii) pickle continuation
     if not has_pycma(case):
         op, _, _ = run_pipeline(case, "p")
@@ -639,6 +745,12 @@ def run_case(case, ctx=None):
     return None
 
 
+def shares_es_kwargs(case):
+    if not case.get("eskw_shared"):
+        return False
+    return any(len(users) > 1 for _, _, users in build_es_kwargs(case)[1])
+
+
 def seed_change_verdict(case, ch, oa, os_):
     if os_.error is not None:
         return "inconclusive"
@@ -657,7 +769,16 @@ def seed_change_verdict(case, ch, oa, os_):
         return "same" if data_index is not None and data_index[1][1][0] >= 4 else "inconclusive"
     if oa.active.get(ch - 1, 0) == 0:
         return "inconclusive"  # the emitter was never asked (inactive in the bandit pool)
-    return "differs" if first_diff(oa, os_, "ask") is not None else "same"
+    e = case["emitters"][ch - 1]
+    if e["kind"] == "gop" and e.get("op") == "iso_line_dd":
+        # built with initial_solutions: its first batch is those solutions whatever the seed
+        return "differs" if first_diff(oa, os_, "ask") is not None else "same"
+    # the first batch an emitter emits is drawn from its own stream alone, so it must change with its seed
+    # (comparing whole runs would let a seed that only reaches, say, the ranker pass for the optimizer's)
+    fa, fs = oa.first_batch.get(ch - 1), os_.first_batch.get(ch - 1)
+    if fa is None or fs is None:
+        return "inconclusive"
+    return "differs" if fa != fs else "same"
 
 
 def fresh_process_resume(case, oa):
@@ -790,7 +911,18 @@ def es_emitter(rng, archive_kind, es=None, ranker=None, kind="es", sk=None):
     if kind == "ga":
         e["grad_opt"] = rng.choice(["adam", "gradient_ascent"])
         e["norm"] = rng.random() < 0.7
+    if rng.random() < 0.3:  # documented evolution-strategy options through es_kwargs (a dict of its own)
+        e["eskw"] = rng.choice(ES_KWARGS[e["es"]])
     return e
+
+
+ES_KWARGS = {  # valid es_kwargs per evolution strategy
+    "cma_es": [{}],
+    "sep_cma_es": [{}],
+    "lm_ma_es": [{"n_vectors": 3}, {}],
+    "openai_es": [{"mirror_sampling": False}, {"mirror_sampling": True}],
+    "pycma_es": [{"opts": {"tolfun": 1e-11}}, {"opts": {"tolfun": 1e-11, "verbose": -9}}, {}],
+}
 
 
 def gop_emitter(rng, sk=None):
@@ -889,7 +1021,34 @@ def strata(ctx):
         c["num_active"] = rng.randint(1, len(pool))
         return c
 
-    return {"archives": g_archives, "es": g_es, "dqd": g_dqd, "mixed": g_mixed}
+    kw_es = ["pycma_es", "lm_ma_es", "openai_es", "cma_es", "sep_cma_es", "pycma_es", "openai_es"]
+    kw_i = [ctx.rng("eskw-rotation").randrange(len(kw_es))]
+
+    def g_eskw(rng):
+        """Several emitters configured through es_kwargs: ONE dict object shared by all of them (what a caller
+        who builds the dict once and a list of emitters from it does), or one equal dict each."""
+        es = kw_es[kw_i[0] % len(kw_es)]
+        kw_i[0] += 1
+        kw = rng.choice([k for k in ES_KWARGS[es] if k or es != "pycma_es"])
+        kind = rng.choice(["es", "es", "ga"])
+        n_iter = rng.randint(4, 6 * L)
+        c = base_case(rng, n_iter)
+        c["archive"] = archive_spec(rng, rng.choice(["grid", "grid", "cvt"]))
+        n = rng.randint(2, 3)
+        ems = []
+        for _ in range(n):
+            e = es_emitter(rng, c["archive"]["kind"], es, kind=kind)
+            e["eskw"] = kw
+            e["restart"] = rng.choice([1, 2, 2, "basic"])  # restarts rebuild the strategy from its stored options
+            ems.append(e)
+        c["emitters"] = ems
+        c["eskw_shared"] = rng.random() < 0.8
+        c["change"] = rng.randrange(2, n + 1)  # run (iii) changes the seed of a LATER emitter
+        c["sched"] = "plain" if kind == "ga" else rng.choice(["plain", "plain", "bandit"])
+        c["num_active"] = n
+        return c
+
+    return {"archives": g_archives, "es": g_es, "dqd": g_dqd, "mixed": g_mixed, "eskw": g_eskw}
 
 
 def minimise(case, fail):
@@ -975,7 +1134,7 @@ def run(ctx):
         bad = ctx.c09_bad_sites
     broken = bool(bad) or bool(getattr(ctx, "c09_bad_spawns", []))
     gens = strata(ctx)
-    order = ["archives", "es", "dqd", "mixed"]
+    order = ["archives", "es", "dqd", "mixed", "eskw"]
     if broken:
         # a broken obligation directs the search for a concrete failing input (DESIGN 2.8): strata that
         # exercise the files of the offending sites first, every stratum is run, and the search is extended
@@ -992,6 +1151,7 @@ def run(ctx):
         "es": (ctx.n(12, 1000), 9 if ctx.quick else 200),
         "dqd": (ctx.n(6, 500), 5 if ctx.quick else 90),
         "mixed": (ctx.n(6, 700), 5 if ctx.quick else 110),
+        "eskw": (ctx.n(7, 500), 6 if ctx.quick else 80),
     }
     # (ii) in a fresh interpreter (about 2 s each): quick 1 case, thorough 8 per stratum
     # (plus one per stratum and round in the extended search after a broken proof obligation)
